@@ -1409,7 +1409,7 @@ def run(ctx):
     # histories on one polynomial object (stale per-object caches: seed C15-9 and its class)
     for vt in ('BINARY', 'SPIN'):
         history_case(ctx, r, lines, checks, directed=(vt, [(('a', 'b', 'c'), F(1)), (('a', 'b', 'd'), F(-3, 2)), (('a',), F(1, 2)), ((), F(1, 4))]))
-    for _ in range(ctx.scale(130, 1500)):
+    for _ in range(ctx.scale(130, 1000)):
         history_case(ctx, r, lines, checks)
     if not ctx.quick:
         for _ in range(200):
